@@ -4,6 +4,7 @@ from __future__ import annotations
 import ast
 
 from .. import cfg as C
+from ..amatch import AM
 from ..flow import rename
 from ..report import AnalysisError
 from ..srcmodel import norm
@@ -164,12 +165,15 @@ def rule_ab(ctx):
     rets = [n for n in ast.walk(f.node) if isinstance(n, ast.Return) and n.value is not None]
     ctx.need(len(rets) == 1, "Image.subregion: expected a single return")
     r = rets[0].value
-    ok = (isinstance(r, ast.Call) and norm(r.func) == "type(self)" and any(k.arg is None and norm(k.value) == "metadata" for k in r.keywords))
+    am = AM(f)
+    ok_meta = am.has(f.node, "metadata = self.metadata()") is not None
+    ok = ok_meta and am.eq(r, "type(self)(img=img, **metadata)")
     ctx.ob(Rb, f.qname, "result is type(self)(img=<extracted block>, **metadata)", ok, norm(r), rets[0])
+    mname = am.actual("metadata") or "metadata"
     over = sorted(n.targets[0].slice.value for n in ast.walk(f.node) if isinstance(n, ast.Assign) and isinstance(n.targets[0], ast.Subscript)
-                  and norm(n.targets[0].value) == "metadata" and isinstance(n.targets[0].slice, ast.Constant))
+                  and norm(n.targets[0].value) == mname and isinstance(n.targets[0].slice, ast.Constant))
     ctx.ob(Rb, f.qname, "only 'dimensions' and 'origin' are overridden in the metadata", over == ["dimensions", "origin"], str(over), f.node)
-    ctx.ob(Rb, f.qname, "metadata is the parent's metadata()", any(norm(v) == "self.metadata()" for v in assigns.get("metadata", [])), "", f.node)
+    ctx.ob(Rb, f.qname, "metadata is the parent's metadata()", ok_meta, "", f.node)
 
 
 def _time_split(node):
@@ -248,9 +252,9 @@ def rule_c(ctx):
         ok = all(isinstance(r.value, ast.Call) and norm(r.value.func) == "type(self)" for r in rets) and rets
         ctx.ob(R, f.qname, "result is type(self)(img=..., **metadata)", bool(ok), "", f.node)
     ts = m.func(IMG, "Image.time_slice")
-    over = {n.targets[0].slice.value: norm(n.value) for n in ast.walk(ts.node) if isinstance(n, ast.Assign) and isinstance(n.targets[0], ast.Subscript)
-            and norm(n.targets[0].value) == "metadata" and isinstance(n.targets[0].slice, ast.Constant)}
-    ctx.ob(R, ts.qname, "time_slice marks the result as a single image (series=False)", over.get("series") == "False", str(over), ts.node)
+    am = AM(ts)
+    ok = am.has(ts.node, "metadata = self.metadata()") is not None and am.has(ts.node, "metadata['series'] = False") is not None
+    ctx.ob(R, ts.qname, "time_slice marks the result as a single image (series=False)", ok, str(am.show()), ts.node)
     # re-stacking on the time axis
     n_stack = 0
     for f in m.all_funcs():
